@@ -61,10 +61,12 @@ DOUBLE_BOUNDS = [0.0, -0.0, 1.5, 0.1, -1e308, 5e-324, 1.7976931348623157e308, fl
 STRING_BOUNDS = ["", "a", "héllo", "\U0001F600x", "\x00", 'q"uo\\te\n', "x" * 130, "中文"]
 BYTES_BOUNDS = [b"", b"\x00", b"\x80\xff", b"abc", bytes(range(256))[100:240], b"\xff" * 3]
 TS_BOUNDS = [(0, 0), (1, 0), (-1, 0), (0, 1000), (-1, 999999000), (0, 999999000), (TS_MIN_S, 0),
-             (TS_MAX_S, 999999000), (1700000000, 123456000), (-1700000000, 1000), (951782400, 0)]
+             (TS_MAX_S, 999999000), (1700000000, 123456000), (-1700000000, 1000), (951782400, 0),
+             (1700000001, 5000000), (7, 50000000), (-7, 500000000), (1, 1000000), (2, 99000000), (3, 100000)]
 DU_BOUNDS = [(0, 0), (1, 0), (-1, 0), (0, 1000), (0, -1000), (-1, -500000000), (0, 999999000),
              (0, -999999000), (DU_MAX_S, 999999000), (-DU_MAX_S, -999999000), (9007199255, 1000),
-             (-9007199255, -1000), (3, 141592000), (-3, -141592000), (0, 500000000), (0, -1000000)]
+             (-9007199255, -1000), (3, 141592000), (-3, -141592000), (0, 500000000), (0, -1000000),
+             (1, 5000000), (-1, -50000000), (0, 99000000), (5, 100000), (0, -5000000)]
 
 
 def enum_bounds(build: Build, type_name: str) -> List[int]:
@@ -129,7 +131,7 @@ def rand_ts(rng) -> Tuple[int, int]:
         s = rng.randint(-2 * 10**9, 2 * 10**9)
     else:
         s = rng.randint(TS_MIN_S, TS_MAX_S)
-    n = rng.choice([0, 1000, 999999000, rng.randint(0, 999999) * 1000])
+    n = rng.choice([0, 1000, 999999000, rng.randint(0, 999999) * 1000, rng.randint(1, 999) * 1000000, rng.randint(1, 99) * 1000000])
     return (s, n)
 
 
@@ -141,7 +143,7 @@ def rand_du(rng) -> Tuple[int, int]:
         s = rng.randint(0, 2 * 10**9)
     else:
         s = rng.randint(0, DU_MAX_S)
-    n = rng.choice([0, 1000, 999999000, rng.randint(0, 999999) * 1000])
+    n = rng.choice([0, 1000, 999999000, rng.randint(0, 999999) * 1000, rng.randint(1, 999) * 1000000, rng.randint(1, 99) * 1000000])
     if rng.random() < 0.5:
         s, n = -s, -n
     return (s, n)
@@ -401,8 +403,18 @@ def attr_names(cls) -> Dict[int, str]:
     return m
 
 
+_TZS = [timezone.utc, timezone(timedelta(hours=2)), timezone(timedelta(hours=-5, minutes=-30)), timezone.utc,
+        timezone(timedelta(hours=14)), timezone(timedelta(hours=-12))]
+
+
 def ts_to_dt(s: int, n: int) -> datetime:
-    return EPOCH + timedelta(seconds=s, microseconds=n // 1000)
+    """aware datetime of the instant; the zone is a deterministic function of the value (the same instant in
+    another zone must encode identically), falling back to UTC near the ends of the datetime range"""
+    dt = EPOCH + timedelta(seconds=s, microseconds=n // 1000)
+    tz = _TZS[(s + n // 1000) % len(_TZS)]
+    if tz is not timezone.utc and TS_MIN_S + 86400 < s < TS_MAX_S - 86400:
+        return dt.astimezone(tz)
+    return dt
 
 
 def du_to_td(s: int, n: int) -> timedelta:
